@@ -103,6 +103,21 @@ def gen_value_forest(rng):
                 e.children.append(en)
                 expect[id(en)] = [("const_value", exp)]
         e.has_children = None
+        # --- variables / template parameters whose type is this enumeration (directly or through a typedef/cv chain):
+        # signedness comes from the underlying type or, lacking one, from the LEB form all the enumerators use
+        vk = kind if (forms is None or (forms in ("sdata", "udata") and e.children)) else "small"
+        for _ in range(rng.randint(1, 3)):
+            t = e
+            for _ in range(rng.randint(0, 2)):
+                w = Die(rng.choice(["typedef", "const_type", "volatile_type"]), [("type", "ref4", t)])
+                if w.tag == DW_TAG["typedef"]:
+                    w.attrs.insert(0, ("name", "string", b"etd"))
+                root.children.append(w)
+                t = w
+            d = Die(rng.choice(["variable", "template_value_parameter", "formal_parameter"]), [("name", "string", b"ev"), ("type", "ref4", t)])
+            exp = const_expectation(rng, d, rng.choice(["data1", "data2", "data4", "data8", "sdata", "udata"]), vk)
+            if exp is not None:
+                add(d, [("const_value", exp)])
     # --- plain attributes
     for _ in range(rng.randint(10, 30)):
         d = Die(rng.choice(["variable", "subprogram", "member", "structure_type"]), [])
